@@ -477,14 +477,14 @@ func TestC01(t *testing.T) {
 	}()
 	for _, driver := range vlib.Drivers() {
 		driver := driver
-		parallelCases(vlib.Scale(400, 8000), 8, func(i int) { c01Sequential(ev, driver, i, false) })
-		parallelCases(vlib.Scale(300, 6000), 8, func(i int) { c01Sequential(ev, driver, i, true) })
-		parallelCases(vlib.Scale(30, 600), 2, func(i int) { c01Concurrent(ev, driver, i) })
+		parallelCases(vlib.Scale(400, 3000), 8, func(i int) { c01Sequential(ev, driver, i, false) })
+		parallelCases(vlib.Scale(300, 2400), 8, func(i int) { c01Sequential(ev, driver, i, true) })
+		parallelCases(vlib.Scale(30, 300), 2, func(i int) { c01Concurrent(ev, driver, i) })
 	}
 	<-binDone
 	for _, driver := range vlib.Drivers() {
 		driver := driver
-		parallelCases(vlib.Scale(12, 300), 4, func(i int) { contractEconomy(ev, "C01", driver, i) })
+		parallelCases(vlib.Scale(12, 60), 4, func(i int) { contractEconomy(ev, "C01", driver, i) })
 	}
 	for _, driver := range vlib.Drivers() {
 		c01ManyTrialNodes(ev, driver)
